@@ -62,8 +62,17 @@ def rvec(rng, n, zero_ok=True):
     return [0 if (zero_ok and rng.random() < 0.2) else rval(rng) for _ in range(n)]
 
 
-def rsm(rng, r, c, nonneg=False, p=None, symmetric=False):
+def rsm(rng, r, c, nonneg=False, p=None, symmetric=False, nonempty=False):
     """random sparse matrix with null rows and null columns"""
+    m = _rsm(rng, r, c, nonneg, p, symmetric)
+    if nonempty and not m['coo']:          # check_format rejects a matrix without any stored entry
+        i, j = rng.randrange(r), rng.randrange(c)
+        m['coo'] = sorted({(i, j), (j, i)} if symmetric and i != j else {(i, j)})
+        m['coo'] = [[a, b, 1] for a, b in m['coo']]
+    return m
+
+
+def _rsm(rng, r, c, nonneg, p, symmetric):
     p = p if p is not None else rng.choice([0.15, 0.3, 0.5, 0.8])
     null_r = {i for i in range(r) if rng.random() < 0.15}
     null_c = {j for j in range(c) if rng.random() < 0.12}
@@ -184,7 +193,10 @@ def gen_slr(rng, depth, r, c, dmax):
         ops.append('SD2U')
     op = rng.choice(ops)
     if op in ('SNeg', 'SAstype', 'SNormalize', 'SD2U'):
-        return [op, gen_slr(rng, depth - 1, r, c, dmax)]
+        sub = gen_slr(rng, depth - 1, r, c, dmax)
+        while op == 'SD2U' and is_bare_reg(sub):     # check_csr_or_slr tests type(x) in [csr_matrix, SparseLR]: a bare Regularizer is rejected
+            sub = gen_slr(rng, depth - 1, r, c, dmax)
+        return [op, sub]
     if op in ('SAdd', 'SSub'):
         return [op, gen_slr(rng, depth - 1, r, c, dmax), gen_slr(rng, min(depth - 1, rng.choice([0, 1])), r, c, dmax)]
     if op in ('SAddCsr', 'SSubCsr'):
@@ -202,12 +214,17 @@ def gen_slr(rng, depth, r, c, dmax):
     raise AssertionError(op)
 
 
+def is_bare_reg(e):
+    """the evaluated object is still the Regularizer instance (astype returns self)"""
+    return e[0] == 'SReg' or (e[0] == 'SAstype' and is_bare_reg(e[1]))
+
+
 def gen_cn(rng, depth, dmax, square_only):
     """returns (expr, (r, c)) — shape of the matrix denoted"""
     if depth <= 0 or rng.random() < 0.2:
         n = rng.randint(1, dmax)
         m = rng.randint(1, dmax)
-        return ['CBase', rsm(rng, n, m, nonneg=True), rng.random() < 0.6], (n, n)
+        return ['CBase', rsm(rng, n, m, nonneg=True, nonempty=True), rng.random() < 0.6], (n, n)
     op = rng.choice(['CNeg', 'CMul', 'CLeft', 'CRight', 'CT', 'CAstype'])
     e, (r, c) = gen_cn(rng, depth - 1, dmax, square_only)
     if op in ('CNeg', 'CAstype'):
@@ -223,23 +240,36 @@ def gen_cn(rng, depth, dmax, square_only):
     return ['CRight', e, rsm(rng, c, k)], (r, k)
 
 
-def cn_nonsquare_site(e):
-    """first CoNeighbor product with a non-square factor (the D26 site), or None"""
+def cn_shared(e):
+    t = e[0]
+    if t == 'CBase':
+        return not e[2]
+    if t in ('CNeg', 'CAstype'):
+        return cn_shared(e[1])
+    if t == 'CMul':
+        return cn_shared(e[2])
+    return False
+
+
+def cn_defect(e):
+    """first defective CoNeighbor site the expression goes through: (site, kind) or None"""
     t = e[0]
     if t == 'CBase':
         return None
     if t == 'CLeft':
-        return cn_nonsquare_site(e[2]) or (None if e[1]['shape'][0] == e[1]['shape'][1] else 'CoNeighbor.left_sparse_dot')
+        return cn_defect(e[2]) or (None if e[1]['shape'][0] == e[1]['shape'][1] else ('CoNeighbor.left_sparse_dot', 'stale_shape'))
     if t == 'CRight':
-        return cn_nonsquare_site(e[1]) or (None if e[2]['shape'][0] == e[2]['shape'][1] else 'CoNeighbor.right_sparse_dot')
+        return cn_defect(e[1]) or (None if e[2]['shape'][0] == e[2]['shape'][1] else ('CoNeighbor.right_sparse_dot', 'stale_shape'))
     if t == 'CMul':
-        return cn_nonsquare_site(e[2])
-    return cn_nonsquare_site(e[1])
+        return cn_defect(e[2]) or (('CoNeighbor.__mul__', 'shared_buffer') if cn_shared(e[2]) and e[1] not in (0, 1) else None)
+    if t == 'CNeg':
+        return cn_defect(e[1]) or (('CoNeighbor.__neg__', 'shared_buffer') if cn_shared(e[1]) else None)
+    return cn_defect(e[1])
 
 
 def gen_pl(rng, depth, n):
     if depth <= 0 or rng.random() < 0.3:
-        return ['PBase', rsm(rng, n, n), [rng.choice([0, 1, 2, -1, 0.5]) for _ in range(rng.randint(1, 5))]]
+        return ['PBase', rsm(rng, n, n, nonempty=True), [rng.choice([0, 1, 2, -1, 0.5]) for _ in range(rng.randint(1, 5))]]
     op = rng.choice(['PNeg', 'PMul', 'PT'])
     if op == 'PMul':
         return [op, rng.choice([2, -1, 0.5]), gen_pl(rng, depth - 1, n)]
@@ -274,8 +304,8 @@ def gen_op(rng, depth, dmax, defects):
         n = rng.randint(1, dmax)
         sym = rng.random() < 0.6
         e = ['LBase', rsm(rng, n, n, nonneg=True, symmetric=sym), rng.choice([0, 0, 1, 0.5, 2]), rng.random() < 0.5]
-        for _ in range(rng.choice([0, 0, 1, 2])):
-            t = rng.choice(['LT', 'LAstype'])
+        for _ in range(rng.choice([0, 1, 1, 2])):
+            t = rng.choice(['LT', 'LT', 'LAstype'])
             if t == 'LT' and not defects and not is_sym(e_base(e)[1]):
                 continue
             e = [t, e]
@@ -342,15 +372,15 @@ def fl(x):
 
 
 def defect_site(op):
-    """the known-defective site an expression goes through (the hypothesis op_sound_site of the theorem), or None"""
+    """the known-defective site an expression goes through (excluded by op_sound_site in the theorem): (site, kind) or (None, None)"""
     e = op['e']
     if op['cls'] == 'nz' and has(e, 'NT'):
-        return 'Normalizer._transpose'
+        return 'Normalizer._transpose', 'transpose_returns_self'
     if op['cls'] == 'lp' and has(e, 'LT') and not is_sym(e_base(e)[1]):
-        return 'Laplacian._transpose'
+        return 'Laplacian._transpose', 'transpose_returns_self'
     if op['cls'] == 'cn':
-        return cn_nonsquare_site(e)
-    return None
+        return cn_defect(e) or (None, None)
+    return None, None
 
 
 # ------------------------------------------------------------------------------------------------
@@ -375,11 +405,14 @@ def run(ctx, scratch):
                        'adjacencies of Normalizer / Laplacian / CoNeighbor have non-negative entries, regularization >= 0',
                        'np.sqrt / np.log enter the model as finite oracle tables filled from the float values',
                        'matrices have no explicitly stored zeros and no duplicate coordinates (SciPy canonical CSR)',
+                       'base matrices of CoNeighbor and Polynome have at least one stored entry (check_format rejects empty matrices); '
+                       'the same test inside CoNeighbor._transpose is not modelled and is reported by the harness',
+                       'directed2undirected / bipartite2* on operators: plain SparseLR objects (check_csr_or_slr rejects the Regularizer subclass)',
                        'cases where a pseudo-inverse is taken of a value within 1e-7 of zero (cancellation) are dropped and counted']
 
 
 def run_operators(ctx, impl, rng, quick, dmax, depth_max, notes):
-    n_cases = 700 if quick else 5000
+    n_cases = 1500 if quick else 6000
     cases = []
     for k in range(n_cases):
         depth = rng.randint(0, depth_max)
@@ -402,14 +435,19 @@ def run_operators(ctx, impl, rng, quick, dmax, depth_max, notes):
         nontrivial = cs['depth'] >= 1 and any(len(m['coo']) > 0 for m in mats_of(op['e']))
         ctx.count(fam, ('op', cs['op_c'], cs['x'], cs['X']), nontrivial)
         case = dict(op=cs['op_c'], x=cs['x'], X=cs['X'])
-        site = defect_site(op)
+        site, dkind = defect_site(op)
         if 'ok' not in r:
             ctx.violation('operator', 'worker failed', case=case, observed=r, cls=op['cls'])
             continue
         out = r['ok']
         if 'build_err' in out:
-            ctx.violation(site or 'operator.build', 'building a well-shaped operator expression raised', case=case,
-                          observed=out, cls=op['cls'])
+            if op['cls'] == 'cn' and has(op['e'], 'CT') and 'empty' in out.get('msg', ''):
+                # _transpose builds a throw-away CoNeighbor(self.backward): check_format rejects a factor without stored entry
+                ctx.violation('CoNeighbor._transpose', 'transposing an operator whose backward factor has no stored entry raises',
+                              case=case, observed=out, cls='cn', kind='empty_factor')
+            else:
+                ctx.violation(site or 'operator.build', 'building a well-shaped operator expression raised', case=case,
+                              observed=out, cls=op['cls'])
             continue
         if out.get('margin'):
             ctx.margin_dropped += 1
@@ -433,7 +471,7 @@ def run_operators(ctx, impl, rng, quick, dmax, depth_max, notes):
         elif 'err' in d or not vclose(fl(m_dot[0]), d['ok']):
             ctx.violation('model_vs_impl', 'operator.dot(x): implementation differs from the model', case=case,
                           expected=fl(m_dot[0]), observed=d, cls=op['cls'], part='dot')
-        stale = site is not None     # shapes / values are off at a defective site: only the 1-D product is compared
+        stale = dkind == 'stale_shape' or site == 'Normalizer._transpose'   # shapes are off there: only the 1-D product is compared
         if not stale:
             for part in ('mv2', 'dotm'):
                 o = out[part]
@@ -465,7 +503,7 @@ def run_operators(ctx, impl, rng, quick, dmax, depth_max, notes):
                         vclose(ds[1], out['sum1']['ok']) and 'ok' in out['sum'] and close(ds[2], out['sum']['ok'])):
                     what = 'sum(axis) differs from the sums of the dense matrix'
         if what:
-            kind = 'stale_shape' if stale else ('transpose_returns_self' if site else 'value')
+            kind = dkind or 'value'
             ctx.violation(site or ('operator:' + op['cls']), what, case=case, expected=out.get('dense_dot'), observed=d,
                           cls=op['cls'], kind=kind)
         # ---- spec check: Coq op_dense vs the worker's first-principles NumPy matrix
@@ -500,7 +538,7 @@ def rows_val(v):
 
 
 def run_utils(ctx, impl, rng, quick, dmax):
-    nU = 70 if quick else 500
+    nU = 120 if quick else 600
 
     def coq(tag, exprs):
         return unq(coq_eval('c15' + tag, IMPORTS, exprs, prelude=PRELUDE, shard=100, timeout=900)) if exprs else []
@@ -703,7 +741,7 @@ def run_utils(ctx, impl, rng, quick, dmax):
     for _ in range(nU // 2):
         r_, c = rng.randint(1, dmax), rng.randint(1, dmax)
         e = gen_slr(rng, rng.randint(0, 1), r_, c, dmax)
-        if has(e, 'SNormalize'):
+        if has(e, 'SNormalize') or is_bare_reg(e):
             continue
         u = rng.random() < 0.5
         c_ = dict(kind='bip_slr', e=e, undirected=u)
